@@ -4,6 +4,8 @@ CONSTANTS
   MaxRowLen = 12
   MaxRows = 4
   MaxLenAscii = 13
+  Kinds <- AllKinds
+  Preds <- AllPreds
 INVARIANT RoundTrip
 CONSTRAINT Emit
 CHECK_DEADLOCK FALSE
